@@ -81,6 +81,9 @@ Calibration
   (shape, dtype, values) the finding is that mismatch with its own label, and the exception is kept as detail `later`
   (before, the operation of the first mismatch and the exception type of an unrelated later failure were combined into
   one label).
+* (round 2) An exception that only the optimize() / un-optimised-lowered routes raise (every prefix is right under
+  compute()) is attributed to the first prefix that fails on those routes (seen: x[:, int, slice, None] with an empty
+  chunk, the known slice&None&int block layout, surfaced one step later in concatenate3 of the lowered graph).
 * (round 2) A pipeline with an inexact floating step whose NumPy reference contains inf/NaN is rejected
   (`reference_overflowed`): the sources hold no special values, so a float32 product overflowed in NumPy's evaluation
   order and met a zero afterwards (nan); every other grouping of the same product gives 0 (seen: prod over 150 float32
@@ -656,6 +659,21 @@ def _localise(case, pref, tol, upto=None):
     return None
 
 
+def _localise_routes(case, upto):
+    """First node whose own prefix raises, or has wrongly shaped blocks, on one of the three evaluation routes; None."""
+    import dask.array as da
+
+    for k in range(upto + 1):
+        try:
+            if _expr_values(P.evaluate(case, da, upto=k))[3]:
+                return k
+        except NotImplementedError:
+            continue
+        except Exception:  # noqa: BLE001
+            return k
+    return None
+
+
 def _report_exception(ctx, case, k, pref, tol, names, ex, classic):
     """An exception met at node k (or while the complete pipeline was evaluated).  The first node that is wrong in any way
     on its own prefix is the mechanism: an exception is often the consequence of a wrong shape / dtype / block layout
@@ -667,7 +685,10 @@ def _report_exception(ctx, case, k, pref, tol, names, ex, classic):
     elif loc:
         _exc_violation(ctx, case, loc[0], pref, loc[3], classic)
     else:
-        _exc_violation(ctx, case, k, pref, ex, classic)
+        # every prefix is right under compute(): the failure belongs to another evaluation route (optimize().compute(), the
+        # un-optimised lowered graph); the first prefix that fails on those routes is the mechanism
+        kk = _localise_routes(case, k)
+        _exc_violation(ctx, case, k if kk is None else kk, pref, ex, classic)
 
 
 def _run(case, ctx):
